@@ -31,15 +31,41 @@ def frac(v):
     return Fraction(v[0], v[1])
 
 
+class InjectedFailure(RuntimeError):
+    """raised by an armed TableTarget: the target evaluation fails (a forward solver that does not converge, ...)"""
+
+
 class TableTarget:
     """log-density / drift given by a table keyed by the exact lattice position (spec rows); off the lattice a smooth
-    finite fallback (any function is a legitimate target).  Every evaluation point is logged."""
+    finite fallback (any function is a legitimate target).  Every evaluation point is logged.
+    arm(kind, n): the n-th evaluation of that kind ("lp": log-density / likelihood / forward map, "grad": drift) made from
+    now on raises InjectedFailure, once (action Abort of the specification)."""
 
     def __init__(self, d, rows):
         self.d = d
         self.tab = {tuple(int(q) for q in r["p"]): (ext(r["t"]), vec(r["g"])) for r in rows}
         self.evals = []
         self.gevals = []
+        self.armed = None
+        self.fired = 0
+
+    def arm(self, kind, n):
+        self.armed = [kind, int(n)]
+        self.fired = 0
+
+    def disarm(self):
+        """-> True when the armed evaluation was reached (and raised)"""
+        self.armed = None
+        return self.fired > 0
+
+    def tick(self, kind):
+        a = self.armed
+        if a is not None and a[0] == kind:
+            a[1] -= 1
+            if a[1] <= 0:
+                self.armed = None
+                self.fired += 1
+                raise InjectedFailure("injected failure of the target evaluation (%s)" % kind)
 
     def key(self, x):
         x = np.asarray(x, dtype=float).reshape(-1)
@@ -53,6 +79,7 @@ class TableTarget:
 
     def logpdf(self, x):
         xx = np.array(x, dtype=float).reshape(-1)
+        self.tick("lp")
         self.evals.append(xx.copy())
         k = self.key(xx)
         if k is None:
@@ -61,6 +88,7 @@ class TableTarget:
 
     def gradient(self, x):
         xx = np.array(x, dtype=float).reshape(-1)
+        self.tick("grad")
         self.gevals.append(xx.copy())
         k = self.key(xx)
         if k is None:
@@ -94,6 +122,7 @@ def build_target(cfg, rows, real="user"):
     prior = cuqi.distribution.Gaussian(float(cfg["m"]) * np.ones(d), 1.0)
     if real == "gauss":
         def fwd(x):
+            T.tick("lp")
             T.evals.append(np.array(x, dtype=float).reshape(-1).copy())
             return x
         model = cuqi.model.Model(fwd, range_geometry=1, domain_geometry=1)
